@@ -52,8 +52,10 @@ def statement_verdict(case, o):
     bal, n, m, u, v, s, d = case
     if any(x < 0 for x in s) or any(x < 0 for x in d):
         return None                                   # outside the quantifier (check() must throw: compared with the model)
+    if not bal and sum(s) > sum(d):
+        return None                                   # supply > demand and no balanceDemand(): outside the quantifier (compared with the model)
     if o["D"] is None or len(o["D"]) != m:
-        return "balanceDemand did not return the demands"
+        return "balanceDemand did not return the demands: " + o["parts"][0][:80]
     d2 = o["D"]
     ts, td = sum(s), sum(d)
     if bal:
@@ -272,12 +274,22 @@ def _chunk_worker(args):
         bump("exact_balance", sum(s) == sum(d2))
         bump("slack", sum(s) < sum(d2))
         bump("positions_ge_1e7", max(abs(x) for x in u + v) >= 10 ** 7)
+        tmax = max(sum(s), sum(d2))
+        bump("total_supply_or_demand_ge_2^31", tmax >= 2 ** 31)
+        bump("total_supply_or_demand_ge_2^32", tmax >= 2 ** 32)
+        bump("total_supply_ge_2^31", sum(s) >= 2 ** 31)
+        bump("totals_ge_2^31_with_every_entry_lt_2^31", tmax >= 2 ** 31 and max(s + d2) < 2 ** 31)
+        bump("an_entry_ge_2^36", max(s + d2) >= 2 ** 36)
+        bump("balanceDemand_added_ge_2^31", bool(bal) and sum(s) - sum(d) >= 2 ** 31)
+        bump("large_totals_with_independent_optimum", tmax >= 2 ** 31 and o["O"] is not None)
         srcs = {}
         for a, b, q in sol:
             srcs.setdefault(a, set()).add(b)
         bump("cases_with_split_source", any(len(x) > 1 for x in srcs.values()))
         bump("sources_%s" % ("1-3" if n <= 3 else "4-14" if n <= 14 else "15+"))
-        if n * m <= CP_LIMIT:
+        if n * m <= CP_LIMIT and cost >= 2 ** 61:
+            bump("plans_not_sent_to_the_proved_checker_cost_ge_2^61_beyond_the_driver_glue_63_bit_ints")
+        if n * m <= CP_LIMIT and cost < 2 ** 61:       # (the OCaml driver prints the checker's cost through a 63-bit int)
             cp.append("CP %d %d %s %d %s" % (n, m, " ".join(str(x) for x in u + v + s + d2), len(sol),
                                             " ".join("%d %d %d" % t for t in sol)))
             cp_idx.append((i, cost))
@@ -326,7 +338,12 @@ def gen_cases(ctx, harness):
     for sd in seeds:
         hist += common.harness_gen(harness, ["seq", sd + 31, nhist[0] // len(seeds)])
         hist += common.harness_gen(harness, ["obj", sd + 57, nhist[1] // len(seeds)])
-    return lines, nsmall, smalls, hist
+    # LARGE amounts: totals pass 2^31 and 2^32 (an accumulator narrower than long long shows as a refused feasible problem / a wrong balanceDemand)
+    big = []
+    nbig = 8000 if ctx.quick else 150000
+    for sd in seeds:
+        big += common.harness_gen(harness, ["big", sd + 83, nbig // len(seeds)])
+    return lines, nsmall, smalls, hist, big
 
 
 def run_cases(harness, asan, driver, lines):
@@ -386,12 +403,13 @@ def run(ctx):
     harness = common.build_harness("transp1d")
     asan = common.build_harness("transp1d", "asan-nosio")
     driver = common.build_driver("transp1d")
-    lines, nsmall, smalls, hist = gen_cases(ctx, harness)
+    lines, nsmall, smalls, hist, big = gen_cases(ctx, harness)
     nhist = len(hist)
+    nbig = len(big)
     corp = common.corpus("C14", "T1 ")
     # the self-contained history cases first: when a defect makes the workers die / hang, the budget of crashes is spent on
     # cases that reproduce when run alone
-    lines = hist + corp + lines
+    lines = hist + big + corp + lines
     stats = run_cases(harness, asan, driver, lines)
     total = sum(s["n"] for s in stats)
     mism = sorted([m for s in stats for m in s["mismatch"]], key=lambda x: len(x[0]))
@@ -484,11 +502,20 @@ def run(ctx):
                 "call's result is compared with the model on the object's data before the call, with fresh objects on the same data, and "
                 "with the statement; a call (TS and TO cases) that does not return within 6 s is a violation; exhaustively 1..2 sources, 1..3 sinks, "
                 "positions 0..1, supplies/demands 0..2 under 3 call patterns (quick: without 2x3). "
-                "non-trivial = the plan has >= 2 entries and positive cost; distinct = distinct case lines" % (smalls, nhist),
-        "exhaustive": True, "exhaustive_cases": nsmall, "random_cases": total - nsmall - len(corp) - nhist, "state_between_calls_case_lines": nhist,
+                "LARGE AMOUNTS (%d case lines, 3/4 T1 and 1/4 TO): 1..6 x 1..6 sources x sinks (15%%: up to 12 x 10), positions as above (range 1..12, "
+                "20..2000 or 10^8, negative, ties, sources on sinks), supplies / demands of magnitude 2^31-1, 2^31, 2^32-1, 2^32, 2^33, 2^36, 2^40 "
+                "(uniform below it, at it, a few large among small ones, all entries in [2^29, 2^31) so that every entry fits an int and the "
+                "totals do not, upper half, mixed with entries <= 2^20), 0-45%% zeros, a fifth with the total supply exactly at 2^31-1, 2^31, "
+                "2^31+1, 2^32-1, 2^32, 2^32+1, 2^32+5, 3*2^31, 2^33; slack / exact balance / deficit through balanceDemand (missing amount "
+                "below the number of sinks, up to the magnitude, or >= 2^31) / supply > demand without balanceDemand (refused: compared with "
+                "the model) / balanceDemand with nothing missing; compared exactly with the model over Z and with the statement (independent "
+                "min-cost flow with 128-bit cost accumulation when n*m <= 64, proved checker when n*m <= %d). "
+                "non-trivial = the plan has >= 2 entries and positive cost; distinct = distinct case lines" % (smalls, nhist, nbig, CP_LIMIT),
+        "exhaustive": True, "exhaustive_cases": nsmall, "random_cases": total - nsmall - len(corp) - nhist - nbig, "state_between_calls_case_lines": nhist,
+        "large_amount_case_lines": nbig,
         "problems_sent_to_the_model": sum(s["units"] for s in stats), "corpus_cases": len(corp),
-        "samples": [lines[nhist + len(corp) + nsmall // 2], lines[nhist + len(corp) + nsmall + 1], lines[-1][:400],
-                    hist[len(hist) // 5], hist[len(hist) // 2][:300], hist[-1][:400], hist[-2][:400]],
+        "samples": [lines[nhist + nbig + len(corp) + nsmall // 2], lines[nhist + nbig + len(corp) + nsmall + 1], lines[-1][:400],
+                    hist[len(hist) // 5], hist[len(hist) // 2][:300], hist[-1][:400], hist[-2][:400], big[0][:400], big[len(big) // 2][:400], big[-1][:400]],
         "distribution": dist,
         "cpp_plans_accepted_by_proved_checker": sum(s["certified"] for s in stats),
         "asan_variant": "asan-nosio (address + bounds/pointer-overflow/null/alignment/vla-bound; signed-integer-overflow NOT enabled: the "
@@ -505,7 +532,7 @@ def run(ctx):
         "memory clause: c14_no_oob covers computeAssignment / convertAssignmentBack only; the sorter constructor, convert, run / push, flushPositions are observed under ASan (no _GLIBCXX_ASSERTIONS: over-reads inside reserved capacity are invisible); balanceDemand has no theorem",
         "optimality of the sweep itself is proved for all inputs of the model (c14_optimal: value-function invariant of the event sweep + "
         "lower bound for every valid plan; files coq/Transp1dOpt*.v); the bounded theorems, the proved checker on the C++ plans (n*m <= %d) and "
-        "the independent min-cost flow (n*m <= 64) remain as per-run validation of the model<->code tie" % CP_LIMIT,
+        "the independent min-cost flow (n*m <= 64, amounts <= 2^50, optimum <= 2^62) remain as per-run validation of the model<->code tie" % CP_LIMIT,
         "model tied to the code by exact comparison on the cases of this run",
     ])
 
